@@ -12,7 +12,8 @@ func init() {
 		ID: "C11",
 		Explanation: "Structural necessary conditions of 'host selection offers each live node once, nearest and replicas first': R1 every host a NextHost closure returns by conversion is dominated by h.IsUp(); R2 token-aware closure: every returned replica is marked used on that path, fallback hosts are returned only if unused and are marked; " +
 			"R3 copy-on-write: slices obtained from cowHostList.get() are never written through or appended to, every Store publishes a slice allocated in that function, clusterMeta is only written on the copy from getMetadataForUpdate and its replica maps are never updated in place; R4 rotation: roundRobbin indexes every layer with (shift+k) modulo that layer's size, every Pick passes the per-pick atomic counter unreduced and the tiers nearest first; R5 the replica lists the token-aware generator walks are duplicate-free by construction (membership test before every append in every placement strategy)." +
-			" R7 = C10.R9 (whole-ring search, wrap to entry 0); R8 the token-aware generator takes the replicas from the map of the keyspace of the query it routes.",
+			" R7 = C10.R9 (whole-ring search, wrap to entry 0); R8 the token-aware generator takes the replicas from the map of the keyspace of the query it routes." +
+			" R9 = C10.R10, R10 = C10.R4 (placement walks cover every ring position and wrap).",
 		NotDecided: "completeness of the offered sequence, exact tier order and rotation for every cluster state; that replica lists contain no duplicates (C10.R1); that a user-supplied HostTierer keeps HostTier() <= MaxHostTier().",
 		Rules: []*Rule{
 			{ID: "C11.R1", Floor: 3, Doc: "NextHost closures return only hosts dominated by IsUp()", Run: c11r1},
